@@ -10,6 +10,7 @@ import (
 	"go/token"
 	"os"
 	"regexp"
+	"sort"
 	"strconv"
 	"strings"
 )
@@ -33,22 +34,22 @@ type Clause struct {
 type TrackClause = Clause
 
 type Contract struct {
-	Key      string
-	Opts     map[string]string
-	Requires []*Clause
-	Ensures  []*Clause
-	Loops    []*Clause
-	AtCalls  []*Clause
-	Tracks   []*Clause
+	Key       string
+	Opts      map[string]string
+	Requires  []*Clause
+	Ensures   []*Clause
+	Loops     []*Clause
+	AtCalls   []*Clause
+	Tracks    []*Clause
 	Preserves []*Clause
-	Stables  []*Clause
-	Steps    []*Clause
-	Dispatch map[string][]string
-	Modifies []string
-	HasMod   bool
-	Trusted  bool // from a .spec file (assumed, never verified)
-	File     string
-	Line     int
+	Stables   []*Clause
+	Steps     []*Clause
+	Dispatch  map[string][]string
+	Modifies  []string
+	HasMod    bool
+	Trusted   bool // from a .spec file (assumed, never verified)
+	File      string
+	Line      int
 }
 
 type Pred struct {
@@ -59,30 +60,40 @@ type Pred struct {
 }
 
 type Lemma struct {
-	Name   string
-	Props  []string
-	Vars   []lemmaVar
-	Body   *SExpr
-	Src    string
-	Line   int
+	Name  string
+	Props []string
+	Vars  []lemmaVar
+	Body  *SExpr
+	Src   string
+	Line  int
 }
 
 type lemmaVar struct{ Name, Type string }
 
+// TypeInv: a data-structure invariant of immutable configuration objects: assumed whenever a
+// pointer of the type is read, except inside the functions that build the objects (which have to
+// establish it).
+type TypeInv struct {
+	Type   string
+	Pred   string
+	Except map[string]bool
+}
+
 type ContractSet struct {
-	Funcs  map[string]*Contract
-	Preds  map[string]*Pred
-	Axioms []*Clause
-	Ghosts map[string]string // name -> type
-	Lemmas []*Lemma
-	Order  []string
+	Funcs    map[string]*Contract
+	Preds    map[string]*Pred
+	Axioms   []*Clause
+	Ghosts   map[string]string // name -> type
+	Lemmas   []*Lemma
+	TypeInvs map[string]*TypeInv
+	Order    []string
 }
 
 func newContractSet() *ContractSet {
-	return &ContractSet{Funcs: map[string]*Contract{}, Preds: map[string]*Pred{}, Ghosts: map[string]string{}}
+	return &ContractSet{Funcs: map[string]*Contract{}, Preds: map[string]*Pred{}, Ghosts: map[string]string{}, TypeInvs: map[string]*TypeInv{}}
 }
 
-var clauseRe = regexp.MustCompile(`^(dispatch|step|stable|preserves|requires|ensures|invariant|decreases|atcall|track|modifies|opt|loop|axiom|pred|ghost|func|lemma)\b(\[[A-Za-z0-9, ]*\])?\s*(.*)$`)
+var clauseRe = regexp.MustCompile(`^(typeinv|dispatch|step|stable|preserves|requires|ensures|invariant|decreases|atcall|track|modifies|opt|loop|axiom|pred|ghost|func|lemma)\b(\[[A-Za-z0-9, ]*\])?\s*(.*)$`)
 
 func (cs *ContractSet) parseFile(path string, trusted bool) error {
 	data, err := os.ReadFile(path)
@@ -132,9 +143,14 @@ func (cs *ContractSet) parseFile(path string, trusted bool) error {
 	}
 	stmts = kept
 	for i := range stmts {
+		var names []string
+		for name := range defs {
+			names = append(names, name)
+		}
+		sort.Slice(names, func(a, b int) bool { return len(names[a]) > len(names[b]) })
 		for pass := 0; pass < 3 && strings.Contains(stmts[i].head, "#"); pass++ {
-			for name, val := range defs {
-				stmts[i].head = strings.ReplaceAll(stmts[i].head, "#"+name, val)
+			for _, name := range names {
+				stmts[i].head = strings.ReplaceAll(stmts[i].head, "#"+name, defs[name])
 			}
 		}
 	}
@@ -183,6 +199,20 @@ func (cs *ContractSet) parseFile(path string, trusted bool) error {
 				}
 				cur.Opts[k] = v
 			}
+		case "typeinv":
+			// typeinv <TypeName> <pred> [except f1, f2, ...]
+			f := strings.Fields(rest)
+			if len(f) < 2 {
+				return fmt.Errorf("%s:%d: bad typeinv", path, s.line)
+			}
+			ti := &TypeInv{Type: f[0], Pred: f[1], Except: map[string]bool{}}
+			if i := strings.Index(rest, " except "); i >= 0 {
+				for _, e := range strings.Split(rest[i+8:], ",") {
+					ti.Except[strings.TrimSpace(e)] = true
+				}
+			}
+			cs.TypeInvs[ti.Type] = ti
+			cur = nil
 		case "dispatch":
 			// dispatch <iface method key>: T1, T2   -- the only package types the receiver can hold
 			if cur == nil {
@@ -194,7 +224,10 @@ func (cs *ContractSet) parseFile(path string, trusted bool) error {
 			if i >= 0 {
 				key = strings.TrimSpace(rest[:i])
 				for _, t := range strings.Split(rest[i+2:], ",") {
-					if t = strings.TrimSpace(t); t != "" && t != "none" {
+					if t = strings.TrimSpace(t); t == "opaque" {
+						// assumed, not proved: the receiver is not one of the package's own types
+						tys = append(tys, "!opaque")
+					} else if t != "" && t != "none" {
 						tys = append(tys, t)
 					}
 				}
